@@ -81,7 +81,7 @@ func CheckPool(field string) bool { return field == PoolField() }
 // Op is one operation of a history.
 //
 //	a.<mb>.<tok>.<date>.<seedhex>.<rep>  deliver    s.<mb>.<h>  mark seen    r.<mb>.<h>  remove
-//	p.<mb>  purge    R  reopen in process    X  real process restart (C10)
+//	p.<mb>  purge    R  reopen in process    C.<cap>  reopen with another cap    X  real process restart (C10)
 type Op struct {
 	Kind   string
 	Mb     int
@@ -104,6 +104,8 @@ func ParseOp(s string) Op {
 		o.Mb, o.Handle = at(1), at(2)
 	case "p":
 		o.Mb = at(1)
+	case "C": // reopen with another MailboxMsgCap
+		o.Rep = at(1)
 	}
 	return o
 }
@@ -142,6 +144,9 @@ type Sess struct {
 	Cap   int
 	Store storage.Store
 	Tab   [][]string // per pool mailbox: ids in order of successful adds
+	// Reissued lists "k<old>>k<new>" for every delivery that was given an id issued before in this
+	// mailbox (possible after a restart, for a message that is gone).
+	Reissued []string
 }
 
 func Open(dir string, cap int, tab [][]string) *Sess {
@@ -205,6 +210,7 @@ func (s *Sess) Do(o Op) string {
 		for j, old := range s.Tab[o.Mb] {
 			if old == id {
 				s.Tab[o.Mb][j] = "reissued:" + id
+				s.Reissued = append(s.Reissued, "k"+strconv.Itoa(j)+">k"+strconv.Itoa(len(s.Tab[o.Mb])))
 			}
 		}
 		s.Tab[o.Mb] = append(s.Tab[o.Mb], id)
